@@ -1567,3 +1567,122 @@ def memcpy_null_rule(ck, fb):
                     ok = True
             (ck.ok if ok else lambda r_, w_, t_: ck.violate(r_, w_, t_, "M.null:%s(%s)" % (f.pq, ",".join(p_["t"] for p_ in f.d.get("params", [])))))("M.null", f.loc(x), "%s: memcpy with run-time length %s is reached only when that length is non-zero" % (f.pq.split("OpenVolumeMesh::")[-1][:60], L))
     ck.floor("memcpy_runtime_length_sites", n, 2)
+
+
+# =============================================================================================== late OVMB framing rules (F60-F65)
+def ovmb_framing_rules(ck, fb):
+    """clauses found by the structural mutation probe of the OVMB format (findings/probe_C18)"""
+    from .canon import Canon, split_eq
+    rd = lambda name: [f for f in fb.by_cls.get(BFR, []) if f.name == name and f.has_cfg]
+    # ---- V.offset
+    ck.rule("V.offset", "read_topo_chunk hands a chunk to read_edges/read_faces/read_cells only under the fact that header.handle_offset does not exceed a bound: `stored handle + offset` is computed in 64 bits and compared with an entity count, so an unbounded offset designates an entity by wrapping around (F60)")
+    fs = rd("read_topo_chunk")
+    if len(fs) != 1:
+        raise AnalysisBroken("anchor vanished: BinaryFileReader::read_topo_chunk")
+    f = fs[0]
+    cn = Canon(f)
+    sites = [(b, x) for b, i, x in f.nodes(("call",)) if x.get("pn", "").split("::")[-1] in ("read_edges", "read_faces", "read_cells") and b in f.reach()]
+    ck.floor("topo_dispatch_sites", len(sites), 3)
+    for b, x in sites:
+        ok = any(re.fullmatch(r"\(v\d+\.handle_offset (>|>=) .*\)", s_) and p_ is False or re.fullmatch(r"\(v\d+\.handle_offset (<|<=) .*\)", s_) and p_ is True for s_, p_, c_ in cn.facts(b))
+        (ck.ok if ok else lambda r_, w_, t_: ck.violate(r_, w_, t_, "V.offset:%s" % x["pn"].split("::")[-1]))("V.offset", f.loc(x), "%s is reached only with a bounded handle_offset" % x["pn"].split("::")[-1])
+    # ---- V.dirp
+    ck.rule("V.dirp", "read_propdir_chunk records in a flag of its own that a directory was read - set on every path that goes on to read entries, tested before anything else - so that an empty directory counts too; the number of decoded entries is no such record (F61)")
+    fs = rd("read_propdir_chunk")
+    if len(fs) != 1:
+        raise AnalysisBroken("anchor vanished: BinaryFileReader::read_propdir_chunk")
+    f = fs[0]
+    cn = Canon(f)
+    flags = {}
+    for b, i, x in f.tops():
+        a = as_assign(x)
+        if a and b in f.reach() and cn.s(a[1]) in ("true", "1"):
+            l = unwrap(f.resolve(a[0]))
+            if isinstance(l, dict) and l.get("k") == "mem" and l.get("t", "") == "bool":
+                flags[cn.s(a[0])] = (b, i)
+    good = None
+    for nm, pos in flags.items():
+        tested = any(s_ == nm and p_ is False for s_, p_, c_ in cn.facts(pos[0]))
+        loops = f.loops()
+        before_loop = all(f.dominates(pos, (h, 0)) for h, body, backs in loops)
+        uncond = not [1 for s_, p_, c_ in cn.facts(pos[0]) if s_ != nm and "props_.size()" not in s_]
+        if tested and before_loop and uncond:
+            good = nm
+    (ck.ok if good else lambda r_, w_, t_: ck.violate(r_, w_, t_, "V.dirp"))("V.dirp", f.where, "read_propdir_chunk refuses a second directory by a flag that is set whenever a directory is read (%s)" % (good or "no such flag: %s" % sorted(flags)))
+    # ---- V.default
+    ck.rule("V.default", "PropertyDecoderT::request_property creates the property only under the fact that decoding the default value used its whole buffer (Decoder::finished() / remaining_bytes() == 0): the stored length of a default has to agree with its type (F62)")
+    rq = [g for g in fb.fns.values() if g.has_cfg and g.name == "request_property" and g.cls and g.cls.startswith("OpenVolumeMesh::IO::PropertyDecoderT<") and g.d.get("inst")]
+    ck.floor("property_decoder_instantiations", len(rq), 10)
+    bad = []
+    for g in rq:
+        cg = Canon(g)
+        disp = [(b, x) for b, i, x in g.nodes(("call",)) if x.get("pn", "").split("::")[-1] == "entitytag_dispatch" and b in g.reach()]
+        if not disp:
+            bad.append(g)
+            continue
+        for b, x in disp:
+            fs_ = {(s_, p_) for s_, p_, c_ in cg.facts(b)}
+            ok = any((re.fullmatch(r"!v\d+\.finished\(\)", s_) and p_ is False) or (re.fullmatch(r"v\d+\.finished\(\)", s_) and p_ is True) or (split_eq(s_) and "remaining_bytes()" in s_ and "0" in (split_eq(s_)[1], split_eq(s_)[2]) and ((split_eq(s_)[0] == "==") == bool(p_))) for s_, p_ in fs_)
+            if not ok:
+                bad.append(g)
+    (ck.ok if not bad else lambda r_, w_, t_: ck.violate(r_, w_, t_, "V.default"))("V.default", (bad[0].where if bad else rq[0].where), "request_property (%d instantiations) creates the property only after the default was decoded completely (%d without the test)" % (len(rq), len(bad)))
+    # ---- V.propspan
+    ck.rule("V.propspan", "read_prop_chunk compares the span with the entity count before it returns for an empty span (an empty span far outside the range is inconsistent too) (F63)")
+    fs = rd("read_prop_chunk")
+    if len(fs) != 1:
+        raise AnalysisBroken("anchor vanished: BinaryFileReader::read_prop_chunk")
+    f = fs[0]
+    cn = Canon(f)
+    empties = [b for b in f.reach() for s_, p_, c_ in cn.facts(b) if re.fullmatch(r"v\d+\.span\.empty\(\)", s_) and p_ is True]
+    rets = [(b, x) for b, i, x in f.tops() if x.get("k") == "ret" and b in empties]
+    if not rets:
+        ck.cannot_judge("V.propspan %s: no early return for an empty span - written in another form" % f.where)
+    for b, x in rets:
+        ok = any(p_ is False and ".span.first" in s_ and ("<" in s_ or ">" in s_) for s_, p_, c_ in cn.facts(b))
+        (ck.ok if ok else lambda r_, w_, t_: ck.violate(r_, w_, t_, "V.propspan"))("V.propspan", f.loc(x), "the return for an empty span lies behind the range test of the span")
+
+
+def handle_property_rule(ck, fb):
+    """handle-valued property data are handles of the file too"""
+    ck.rule("V.handleprop", "the codec of handle-typed properties (Codecs::OVMHandle<H>::decode) or its caller compares the decoded index with the entity count of H's kind (or at least with -1 from below): today the index is stored unchecked, so a vertex-handle property can hold 1000000 in a file of three vertices (known finding F66)")
+    ds = [f for f in fb.fns.values() if f.has_cfg and f.name == "decode" and f.cls and "Codecs::OVMHandle<" in f.cls and f.d.get("inst")]
+    ck.floor("handle_codec_instantiations", len(ds), 4)
+    unchecked = [f for f in ds if not any(t and t.get("cond") for t in (f.term(b) for b in f.reach()))]
+    # a range check could also sit in the generic decode_n / deserialize wrappers: look for any comparison mentioning idx() there
+    wrappers = [g for g in fb.fns.values() if g.has_cfg and g.name in ("decode_n", "deserialize") and g.cls and "OVMHandle" in g.cls]
+    wrapped = any(any(t and t.get("cond") and "idx()" in estr(g.resolve(t["cond"])) for t in (g.term(b) for b in g.reach())) for g in wrappers)
+    ok = not unchecked or wrapped
+    (ck.ok if ok else lambda r_, w_, t_: ck.violate(r_, w_, t_, "V.handleprop"))("V.handleprop", (unchecked[0].where if unchecked else ds[0].where), "handle-typed property values are range-checked when they are decoded (%d of %d codec instantiations store the decoded index without any test)" % (len(unchecked), len(ds)))
+
+
+def ovmb_encoding_rules(ck, fb):
+    """C06 side: encodings the description permits are read; the writer emits only what its own reader's preconditions allow"""
+    from .canon import Canon
+    ck.rule("C06.valences", "read_faces/read_cells decide 'wrong valence for a tetrahedral/hexahedral file' on the valence of every entity - the fixed valence of the header or every entry of the valence list - not on header.valence alone: the format permits either form (F64)")
+    n = 0
+    for name in ("read_faces", "read_cells"):
+        fs = [f for f in fb.by_cls.get(BFR, []) if f.name == name and f.has_cfg]
+        if len(fs) != 1:
+            raise AnalysisBroken("anchor vanished: BinaryFileReader::" + name)
+        f = fs[0]
+        cn = Canon(f)
+        for b, i, x in f.tops():
+            a = as_assign(x)
+            if not a or b not in f.reach() or not cn.s(a[1]).endswith("ErrorInvalidTopoType"):
+                continue
+            n += 1
+            fs_ = [(s_, p_) for s_, p_, c_ in cn.facts(b)]
+            only_header = any(re.fullmatch(r"\(\d+\w* != P1\.valence\)|\(P1\.valence != \d+\w*\)", s_) and p_ is True for s_, p_ in fs_)
+            (ck.ok if not only_header else lambda r_, w_, t_: ck.violate(r_, w_, t_, "C06.valences:%s" % name))("C06.valences", f.loc(x), "%s: the topology-type rejection looks at the valence of every entity (facts %s)" % (name, [s_[:60] for s_, p_ in fs_ if "alence" in s_][:2]))
+    ck.floor("topo_type_rejections", n, 4)
+    ck.rule("C06.emptyprop", "write_all_props calls the encoder's serialize (precondition idx_begin < size()) and writes a PROP chunk only for a property that has elements (F65)")
+    fs = [f for f in fb.by_cls.get(BFW, []) if f.name == "write_all_props" and f.has_cfg]
+    if len(fs) != 1:
+        raise AnalysisBroken("anchor vanished: BinaryFileWriter::write_all_props")
+    f = fs[0]
+    cn = Canon(f)
+    ser = [(b, x) for b, i, x in f.nodes(("call",)) if x.get("pn", "").split("::")[-1] == "serialize" and b in f.reach()]
+    for b, x in ser:
+        ok = any(("size()" in s_ or "span.count" in s_) and "0" in s_ and (("==" in s_ and p_ is False) or ("!=" in s_ and p_ is True) or (">" in s_ and p_ is True)) for s_, p_, c_ in cn.facts(b))
+        (ck.ok if ok else lambda r_, w_, t_: ck.violate(r_, w_, t_, "C06.emptyprop"))("C06.emptyprop", f.loc(x), "write_all_props serialises a property only under the fact that it has elements")
+    ck.floor("prop_serialize_sites", len(ser), 1)
